@@ -337,6 +337,11 @@ class Engine(object):
             self.violate("history_raises", what=what, op=label, exc=observed.exc_class, msg=observed.msg,
                          tb=observed.tb, flags=flags)
             return
+        if isinstance(model, Failure) and self.oracle == "fresh_dense" and flags.get("assembler") == "fmm":
+            # the dense counterpart does not exist for this configuration: nothing to compare with
+            self.event(what, label, "no_dense_counterpart", model.exc_class)
+            self.out.probe("no_dense_counterpart")
+            return
         if isinstance(model, Failure):
             self.event(what, label, "model_raises", model.exc_class)
             self.violate("history_succeeds_where_fresh_raises", what=what, op=label, exc=model.exc_class,
@@ -398,8 +403,10 @@ class Engine(object):
             for r in self.ops if r.vector is not None
         )
         g = self.global_vector()
-        keys = sorted(repr(k[2:]) for k in fa._FMM_CACHE.keys())
-        return rng.digest([mats, g, keys, len(fa._FMM_POTENTIAL_CACHE)])
+        c1 = getattr(fa, "_FMM_CACHE", None)
+        c2 = getattr(fa, "_FMM_POTENTIAL_CACHE", None)
+        keys = sorted(repr(tuple(k)[2:]) if isinstance(k, tuple) else repr(k) for k in c1.keys()) if isinstance(c1, dict) else []
+        return rng.digest([mats, g, keys, len(c2) if isinstance(c2, dict) else 0])
 
     # ------------------------------------------------------------------ ops
     def op_set_global(self, op):
@@ -821,13 +828,24 @@ class Engine(object):
         import bempp_cl.api
         import bempp_cl.api.fmm.fmm_assembler as fa
 
-        had = len(fa._FMM_CACHE) + len(fa._FMM_POTENTIAL_CACHE)
+        def sizes():
+            # the two caches the property names; a refactoring may rename them, then only the effect on later
+            # results (H1) is checked
+            out_ = []
+            for nm in ("_FMM_CACHE", "_FMM_POTENTIAL_CACHE"):
+                c = getattr(fa, nm, None)
+                out_.append(len(c) if isinstance(c, dict) else None)
+            return out_
+
+        before = sizes()
+        had = sum(x for x in before if x)
         bempp_cl.api.clear_fmm_cache()
         self.event("clear_fmm_cache", had)
         self.cleared_since_fmm = True
         if had:
             self.out.fault("F2_cache_clear_nonempty")
-        if len(fa._FMM_CACHE) or len(fa._FMM_POTENTIAL_CACHE):
+        after = sizes()
+        if any(x for x in after if x):
             self.violate("clear_fmm_cache_incomplete", op="clear_fmm_cache", flags={})
 
     def op_arm_peer_fault(self, op):
